@@ -62,7 +62,36 @@ def load(path):
     return runs, other
 
 
+def touches_abstract(types, op):
+    """does the operation select through an interface / union typed field or fragment?"""
+    def walk(sels, pt):
+        for x in sels:
+            if x["k"] == "F":
+                fd = (types.get(pt) or {}).get("fields", {}).get(x["name"])
+                ft = fd["type"]["ty"] if fd else ""
+                if (types.get(ft) or {}).get("kind") in ("INTERFACE", "UNION"):
+                    return True
+                if x["sub"] and walk(x["sub"], ft):
+                    return True
+            else:
+                on = x["on"] or pt
+                if (types.get(on) or {}).get("kind") in ("INTERFACE", "UNION"):
+                    return True
+                if walk(x["sub"], on):
+                    return True
+        return False
+    return walk(op["sel"], "Subscription")
+
+
 def classify(r, idx, ev, payload):
+    sig, what = classify0(r, idx, ev, payload)
+    key = ev.get("key")
+    mine = next((e for e in r["events"] if e["ev"] == "Start" and e["key"] == key), None)
+    stratum = "abstract" if mine is not None and touches_abstract(r["reset"]["types"], mine["op"]) else "core"
+    return stratum + "/" + sig, what
+
+
+def classify0(r, idx, ev, payload):
     evs = r["events"]
     cfg = r["cfg"]
     if ev["ev"] == "End":
@@ -118,6 +147,8 @@ def run(sc, tier, replay):
         nsh = 14
         runs_per = 700 if thorough else 60
         shards = [(vlib.seed() * 1000 + k, runs_per, CORE + (",abstract" if (thorough and k % 7 == 6) else "") + (",oddids,richargs" if k % 2 else "")) for k in range(nsh)]
+        # the pinned shard of the recorded finding C17-K1 (interface / union typed selections)
+        shards.append((1006, 200, CORE + ",abstract"))
 
     def one(k):
         seed, n, feat = shards[k]
